@@ -117,6 +117,11 @@ func ruleIdx1(c *Ctx, r *Reporter) {
 					break
 				}
 				if found == nil {
+					// the index loop may have been extracted into a helper method of Collection that receives the document
+					if why := idxHelperCovers(c, fn, D, nd.kind, wantSrc, idxF); why != "" {
+						r.ok(key, c.pos(D.Pos()), why)
+						continue
+					}
 					r.bad(key, c.pos(D.Pos()), fmt.Sprintf("no index.%s on the same document(s) inside a loop over c.Indexes", nd.kind))
 					continue
 				}
@@ -682,4 +687,74 @@ func ruleIdx5(c *Ctx, r *Reporter) {
 	}
 	r.check(keyOK && mu.Value == b2.Call.Args[0], "File.BuildCatalog:index installed under its name", c.pos(mu.Pos()), "the rebuilt index is stored under the name it was saved with", "the rebuilt index is stored under another key or another index is installed")
 	_ = types.Universe
+}
+
+// idxHelperCovers: fn calls, before D and with its error checked, an unexported method H of Collection that takes the
+// document and performs index.<kind>(doc) for every index of c.Indexes, aborting with an error on false/err.
+func idxHelperCovers(c *Ctx, fn *ssa.Function, D *ssa.Call, kind string, wantSrc ssa.Value, idxF *types.Var) string {
+	out := ""
+	allInstrs(fn, func(in ssa.Instruction) {
+		call, ok := in.(*ssa.Call)
+		if !ok || out != "" {
+			return
+		}
+		h := call.Call.StaticCallee()
+		if h == nil || h == fn || fnPkgPath(h) != pkgMongokit || h.Blocks == nil || h.Signature.Recv() == nil || h.Object() == nil || h.Object().Exported() {
+			return
+		}
+		// which parameter of H receives the document
+		var hp *ssa.Parameter
+		for i, a := range call.Call.Args {
+			if src, _ := elemSource(a); src == wantSrc && i < len(h.Params) {
+				hp = h.Params[i]
+			}
+		}
+		if hp == nil {
+			return
+		}
+		// inside H: index.<kind>(hp) on the value of a range over c.Indexes, in every iteration, false/err abort
+		var ic *ssa.Call
+		var nx *ssa.Next
+		allInstrs(h, func(x ssa.Instruction) {
+			hc, ok := x.(*ssa.Call)
+			if !ok || calleeFull(&hc.Call) != pkgMongokit+".Index."+kind || len(hc.Call.Args) < 2 || hc.Call.Args[1] != ssa.Value(hp) {
+				return
+			}
+			if ex, ok := hc.Call.Args[0].(*ssa.Extract); ok {
+				if n2, ok := ex.Tuple.(*ssa.Next); ok {
+					if rg, ok := n2.Iter.(*ssa.Range); ok && isLoadOf(rg.X, idxF) {
+						ic, nx = hc, n2
+					}
+				}
+			}
+		})
+		if ic == nil {
+			return
+		}
+		if body := firstBodyInstr(nx); body != nil {
+			isCall := func(x ssa.Instruction) bool { return x == ssa.Instruction(ic) }
+			back := func(x ssa.Instruction) bool { return x == ssa.Instruction(nx) }
+			if !isCall(body) && exitWithoutPassingAny(body, isCall, back) != nil {
+				return
+			}
+		}
+		okv, errv := tupleResult(ic, 0), tupleResult(ic, 1)
+		if errv == nil || len(errChecksOf(errv)) == 0 || okv == nil || !boolFalseReturnsError(okv) {
+			return
+		}
+		// in fn: the helper precedes D, and D runs only when the helper reported success
+		if !instrDominates(call, D) {
+			return
+		}
+		good := false
+		for _, chk := range errChecksOf(errorResult(call)) {
+			if failEdgeReturnsError(chk) && (chk.OkSucc == D.Block() || chk.OkSucc.Dominates(D.Block())) {
+				good = true
+			}
+		}
+		if good {
+			out = "through " + h.Name() + ": a complete loop over c.Indexes calling index." + kind + " on the document; false/err abort; checked before the documents mutation"
+		}
+	})
+	return out
 }
